@@ -34,10 +34,11 @@ type Check struct {
 	// arch is the GOARCH of the program being analysed; Archs lists all programs this check was decided on
 	// (quick: the default one; thorough: amd64, 386, arm64). Verdicts are merged per key: bad on any arch is bad.
 	arch      string
+	elapsed   time.Duration // time spent deciding this property's obligations (all programs), excluding shared loading
 	Archs     []string
 	archStats map[string]map[string]int
-	Stats map[string]int
-	Notes []string
+	Stats     map[string]int
+	Notes     []string
 	// Floors: rule -> minimum number of obligations that rule must have produced (vacuity guard)
 	floors map[string]int
 	// broken: positive controls of the checker itself that did not fire (the rule would be blind)
@@ -88,8 +89,8 @@ func (c *Check) beginArch(arch string) {
 	c.Stats = map[string]int{}
 	c.archStats[arch] = c.Stats
 }
-func (c *Check) floor(rule string, n int)                { c.floors[rule] = n }
-func (c *Check) stat(name string, n int)                 { c.Stats[name] += n }
+func (c *Check) floor(rule string, n int) { c.floors[rule] = n }
+func (c *Check) stat(name string, n int)  { c.Stats[name] += n }
 
 // control records a positive control: a construct the rule's engine must recognise on every run.
 func (c *Check) control(ok bool, what string) {
@@ -243,7 +244,7 @@ func (c *Check) writeEvidence(o runOpts, discharged, nviol int, knownHit []*Ob) 
 		}
 	}
 	// samples: a spread of obligations (first of each rule, plus any non-discharged)
-	var samples []any
+	samples := []any{}
 	seenRule := map[string]int{}
 	for _, ob := range c.obs {
 		if !ob.OK || seenRule[ob.Rule] < 2 {
@@ -300,7 +301,7 @@ func (c *Check) writeEvidence(o runOpts, discharged, nviol int, knownHit []*Ob) 
 		"level":       level,
 		"coverage":    cov,
 		"assumptions": c.Assumptions,
-		"wall_s":      time.Since(o.start).Seconds(),
+		"wall_s":      c.elapsed.Seconds() + time.Since(o.start).Seconds(),
 		"violations":  nviol,
 	}
 	b, err := json.MarshalIndent(ev, "", " ")
